@@ -262,9 +262,7 @@ fn elaborate_diff_switches(stmts: Vec<Sp<LowerStmt>>, diff_flag_names: &context:
                 // find the max number of switch cases and explicit values
                 let mut switch_props = ds_util::DiffSwitchMeta::new();
                 for arg in args {
-                    if let LowerArg::DiffSwitch(cases) = &arg.value {
-                        switch_props.update(cases);
-                    }
+                    update_diff_switch_meta(&mut switch_props, arg);
                 }
 
                 if switch_props.num_difficulties < 2 {
@@ -301,6 +299,17 @@ fn elaborate_diff_switches(stmts: Vec<Sp<LowerStmt>>, diff_flag_names: &context:
         }
     }
     out
+}
+
+/// Accounts for a switch and for the switches nested in its cases, whose explicit cases
+/// are explicit difficulties of the statement as well.
+fn update_diff_switch_meta(meta: &mut ds_util::DiffSwitchMeta, arg: &Sp<LowerArg>) {
+    if let LowerArg::DiffSwitch(cases) = &arg.value {
+        meta.update(cases);
+        for case in cases.iter().flatten() {
+            update_diff_switch_meta(meta, case);
+        }
+    }
 }
 
 fn select_diff_for_lower_args(args: &[Sp<LowerArg>], difficulty: u32) -> Vec<Sp<LowerArg>> {
